@@ -492,8 +492,9 @@ def check_C16(chk):
                          ("rl", {"MaxU": 0, "MaxCap": 0, "MaxLen": 14 if chk.thorough else 9})):
         c = dict(consts)
         c["Kind"] = '"%s"' % kind
+        c["Memory"] = 1
         path, res = vlib.generate_cases(chk.work, "GenBuilder_" + kind, "GenBuilder", cfg_consts(c) + BUILDER_TAIL, timeout=1200)
-        chk.add_tlc(res, "GenBuilder %s: transition cover of the builder machine (invariant BuilderOK checked)" % kind, {"behaviours": len(res.replay_lines)})
+        chk.add_tlc(res, "GenBuilder %s: cover of every (reachable builder state, class of the previous call, call) of the builder machine (invariant BuilderOK checked)" % kind, {"behaviours": len(res.replay_lines)})
         st = "replay builder transition cover (%s) on dbg-native" % kind
         out = chk.run_harness(bins["dbg-native"], ["replay", "--kind", "builder", "--cases", path], st)
         if out:
